@@ -1,4 +1,4 @@
-"""C22 — chunked transfer coding: real _ChunkedTransferDecoder / _IdentityTransferDecoder / toChunk /
+"""C22 — chunked transfer coding: real _ChunkedTransferDecoder / _IdentityTransferDecoder / toChunk / fromChunk /
 _hexint / _decint vs the Lean model, plus an independent whole-stream reference parser as property oracle."""
 import re
 
@@ -13,10 +13,26 @@ RULE = ("grammar-generated chunked streams (1..6 chunks, sizes 1..5/16/300/5000,
         "bytes; partial lines (CRLF never arrives) of 1020..1027 bytes, alone / ending in CR / after good chunks / followed by "
         "a late CRLF, cut at 1023/1024/1025 and byte-at-a-time near the bound; trailer sections of 2^16-4..2^16+4 bytes with "
         "the critical cut points; identity decoder with Content-Length and with contentLength=None, noMoreData once, twice "
-        "(Content-Length given) and followed by dataReceived; _hexint/_decint/toChunk on hostile byte strings. distinct = "
-        "(op, generator class, reference verdict, exception class, delivery-count bucket, features)")
+        "(Content-Length given) and followed by dataReceived; _hexint/_decint/toChunk on hostile byte strings. "
+        "Grammar-directed classes (mutation audit): ONE size field of a valid stream (any chunk, the last-chunk too, with or "
+        "without an extension behind it) decorated with what int(x,16) tolerates but 1*HEXDIG does not (SP/HTAB/LF/VT/FF/CR/"
+        "NBSP before, after, both sides; BWS before ';'; sign; 0x/0b/0o prefix; underscores; suffix letters; empty; 7..40 "
+        "leading zeros); chunk extensions built from parameter/quoted-string shapes with one probed byte (allowed or not) "
+        "inside quotes, after '=', as a name, after the closing quote, last, 160..200 bytes deep; chunks announcing a size "
+        "at an integer boundary (2^31, 2^32, 2^53, 2^63, 2^64, 16^20, 16^200, each -1/+1) of which only a prefix arrives; counts "
+        "far beyond ordinary messages within the documented BYTE limits (101..600 [thorough ..2500] trailer fields, 100..1100 "
+        "[..3000] chunks, 60..200 extension parameters); re-entrant probes: in ~30% of the valid/truncated/mutated/huge cases "
+        "and ~40% of the Content-Length identity cases the callbacks themselves call noMoreData() (dataCallback and "
+        "finishCallback of the chunked decoder; dataCallback once it holds all Content-Length bytes and finishCallback of "
+        "the identity decoder) and the outcomes are part of the observable; fromChunk on toChunk output + rest, decorated "
+        "sizes, extensions, damaged/missing CRLFs, short data, prefixes. distinct = "
+        "(op, generator class, reference verdict, exception class, delivery-count bucket, features incl. probe)")
 ASSUMES = [
-    "callbacks return normally (the decoder is not re-entered from dataCallback/finishCallback)",
+    "callbacks return normally; the only re-entrant call made from dataCallback/finishCallback is noMoreData() (the one the "
+    "code and test_reentrantFinishedNoMoreData provide for); dataReceived() is never re-entered ('This callback is not "
+    "reentrant')",
+    "fromChunk: a size line with a chunk extension, which fromChunk documents it does not handle, may be refused "
+    "(ValueError) or decoded correctly - never decoded wrongly",
     "a decoder that raised is dropped (HTTPChannel answers 400 and disconnects): behaviour after a raise is not compared",
     "size-line bound, exactly as http.py enforces it (maxChunkSizeLineLength = 1024; `eolIndex >= 1024 or (eolIndex == -1 "
     "and len(buffer) > 1024)`): a size line whose CRLF has arrived is accepted iff it is <= 1023 bytes WITHOUT its CRLF "
@@ -40,12 +56,23 @@ MANIFEST = {
             "bytes waited on - partial_size_line_tolerated); _IdentityTransferDecoder: exact delivery with Content-Length, "
             "_DataLoss when short, and without Content-Length every byte delivered, noMoreData = finishCallback(b'') once + "
             "PotentialDataLoss (identity_until_close_exact), noMoreData outcome for every decoder state "
-            "(identity_noMoreData_table, chunked_noMoreData_table); model tied to http.py by differential runs on structured "
-            "streams and splits.",
+            "(identity_noMoreData_table, chunked_noMoreData_table); noMoreData() called from inside the callbacks: silent "
+            "from finishCallback for every history (reentrant_noMoreData_in_finishCallback), _DataLoss from dataCallback "
+            "(reentrant_noMoreData_in_dataCallback), silent from both callbacks of the identity decoder once the body is "
+            "complete (ident_reentrant_noMoreData); fromChunk inverts toChunk and refuses non-hex sizes, a missing CRLF, "
+            "no CRLF (fromChunk_toChunk, fromChunk_rejects_*); model tied to http.py by differential runs on structured "
+            "streams and splits, incl. decorated size fields, quoted extensions, sizes >= 2^31, hundreds of trailer fields "
+            "and chunks.",
     "note": "trusts Lean kernel, the hand-written model of the decoder (differentially tied), CPython bytearray.find/int(b,16)",
     "technique": "Lean 4 proof (state-machine invariants, induction over deliveries) + differential tie + reference-parser oracle",
     "design_ref": "DESIGN.md §7 C22",
 }
+
+
+
+def http_toChunk(data):
+    return http.toChunk(data)
+
 
 MAXLINE = 1024
 MAXTRAILER = 2 ** 16
@@ -194,8 +221,18 @@ def _random_split(rng, stream):
     return d
 
 
-def _case(deliveries, end, why):
-    return {"op": "chunked", "d": [hx(x) for x in deliveries], "end": int(end), "why": why}
+def _case(deliveries, end, why, probe=0):
+    c = {"op": "chunked", "d": [hx(x) for x in deliveries], "end": int(end), "why": why}
+    if probe:
+        c["probe"] = 1      # both callbacks call noMoreData() (re-entrantly) and its outcome is observed
+    return c
+
+
+def _probed(rng, c, share=0.3):
+    """the same case with the re-entrant noMoreData() probe in its callbacks, for a share of the cases"""
+    if rng.random() < share:
+        c = dict(c, probe=1)
+    return c
 
 
 def _mutate(rng, stream):
@@ -265,6 +302,156 @@ def _trailer_limit_cases(rng, deltas):
     return out
 
 
+# decorations of the chunk-size field that Python's int(x, 16) accepts although they are not 1*HEXDIG (whitespace
+# around it, a sign, the 0x prefix, underscores between digits), the BWS that RFC 9112 7.1.1 mentions before chunk-ext,
+# and plain junk.  (pre, post, still_hex): still_hex says whether the decorated field is still 1*HEXDIG.
+_WS = [b" ", b"\t", b"  ", b" \t", b"\n", b"\x0b", b"\x0c", b"\r", b"\xa0", b"\x85", b"\x1c", b"\x00"]
+
+
+def _decorate_size(rng, digits):
+    """-> the size field rewritten; never plain hex digits unless 'zeros' is drawn"""
+    r = rng.randrange(12)
+    w = rng.choice(_WS)
+    if r == 0:
+        return w + digits
+    if r == 1:
+        return digits + w
+    if r == 2:
+        return w + digits + rng.choice(_WS)
+    if r == 3:
+        return rng.choice([b"+", b"-", b"+ ", b"- "]) + digits
+    if r == 4:
+        return rng.choice([b"0x", b"0X", b" 0x", b"0x_", b"0b", b"0o"]) + digits
+    if r == 5 and len(digits) >= 2:
+        k = rng.randint(1, len(digits) - 1)
+        return digits[:k] + b"_" + digits[k:]
+    if r == 6:
+        return rng.choice([b"_" + digits, digits + b"_", digits[:1] + b"__" + digits[1:] if len(digits) > 1 else b"_" + digits])
+    if r == 7:
+        return digits + rng.choice([b"L", b"l", b"h", b"H", b".", b".0", b"e0", b"g", b"G", b"\xb2", b"\xd9\xa3"])
+    if r == 8:
+        return b""                                  # empty size field
+    if r == 9:
+        return b"0" * rng.choice([1, 7, 15, 16, 17, 40]) + digits        # still hex: many leading zeros
+    if r == 10:
+        return digits + w + rng.choice([b"", b" "])
+    return w * 2 + digits
+
+
+def _structured_stream(rng, nchunks=None, sizes=(1, 1, 2, 3, 5, 16, 17)):
+    """-> list of [sizefield, ext(with its ';' or b''), data] per chunk incl. the last (data None), trailer lines, extra"""
+    chunks = []
+    for _ in range(rng.choice([0, 1, 1, 2, 3]) if nchunks is None else nchunks):
+        n = rng.choice(sizes)
+        chunks.append([_size_digits(rng, n), _ext(rng), _payload(rng, n)])
+    chunks.append([b"0" * rng.choice([1, 1, 1, 2, 4]), _ext(rng), None])
+    trailers = [_trailer_line(rng) for _ in range(rng.choice([0, 0, 0, 1, 2]))]
+    extra = rng.choice([b"", b"", b"X", b"\r\n", b"GET / HTTP/1.1\r\n\r\n"])
+    return chunks, trailers, extra
+
+
+def _assemble(chunks, trailers, extra):
+    out = []
+    for size, ext, data in chunks:
+        out.append(size + ext + CRLF + (data + CRLF if data is not None else b""))
+    for t in trailers:
+        out.append(t + CRLF)
+    out.append(CRLF)
+    return b"".join(out) + extra
+
+
+def _sizedeco_cases(rng, count):
+    """valid streams in which ONE size field (of any chunk, the last-chunk included, with or without an extension
+    following it) is decorated"""
+    for _ in range(count):
+        chunks, trailers, extra = _structured_stream(rng)
+        k = rng.randrange(len(chunks))
+        if rng.random() < 0.6 and not chunks[k][1]:
+            chunks[k][1] = b";" + rng.choice([b"", b"x", b"x=y", b' a="b c"'])
+        chunks[k][0] = _decorate_size(rng, chunks[k][0])
+        stream = _assemble(chunks, trailers, extra)
+        yield _case(_random_split(rng, stream), 1, "sizedeco")
+        if rng.random() < 0.25:
+            yield _case([stream], 1, "sizedeco")
+
+
+# quoted-string / parameter shapes of chunk extensions; `%` marks where the probed byte goes
+_EXT_SHAPES = [b';a="%"', b';a="x%y"', b';a="%', b';a=%', b';%=b', b';a=b;%', b';a="b";c="%"', b';a="b"%', b';"%"', b';a="\t %"',
+               b';a=b%', b';%', b'; %', b';a ="%"', b';a= "%"', b';' + b'p=q;' * 40 + b'z="%"', b';a="' + b'v' * 200 + b'%"']
+
+
+def _extshape_cases(rng, count):
+    """extensions built from parameter / quoted-string shapes with one probed byte (allowed or not) at a structural
+    position: inside quotes, after '=', as a name, after a closing quote, as the last byte, deep in a long extension"""
+    for _ in range(count):
+        shape = rng.choice(_EXT_SHAPES)
+        r = rng.random()
+        if r < 0.45:
+            b = bytes([rng.choice(BADEXT)])
+        elif r < 0.55:
+            b = rng.choice([b"\\", b"\\\"", b"\x7f", b"\x00", b"\n", b"\r", b"\r\r", b"\n\n"])
+        else:
+            b = bytes([rng.choice(EXTALPHA)])
+        ext = shape.replace(b"%", b)
+        chunks, trailers, extra = _structured_stream(rng)
+        k = rng.randrange(len(chunks))
+        chunks[k][1] = ext
+        yield _case(_random_split(rng, _assemble(chunks, trailers, extra)), 1, "extshape")
+
+
+_HUGE = [2 ** 31 - 1, 2 ** 31, 2 ** 31 + 1, 2 ** 32 - 1, 2 ** 32, 2 ** 32 + 5, 2 ** 53, 2 ** 63 - 1, 2 ** 63, 2 ** 64 - 1, 2 ** 64,
+         2 ** 64 + 1, 16 ** 20, 16 ** 40 + 3, 16 ** 200, 10 ** 9, 10 ** 10, 0xFFFFFF, 0x1000000, 0x7FFFFFF, 0x10000000, 0xFFFFFFFF0]
+
+
+def _hugesize_cases(rng, count):
+    """a chunk announcing a size at an integer boundary (2^31, 2^32, 2^63, 2^64, 16^20 …) of which only a prefix can
+    ever arrive: the prefix must be delivered and the end of the stream reported as data loss, never a rejection"""
+    for _ in range(count):
+        chunks, _, _ = _structured_stream(rng, nchunks=rng.choice([0, 0, 1, 2]))
+        chunks.pop()                               # no last-chunk: the huge chunk never ends
+        n = rng.choice(_HUGE) + rng.choice([0, 0, 0, -1, 1])
+        have = rng.choice([0, 0, 1, 2, 7, 40, 300])
+        digits = b"%x" % n
+        if rng.random() < 0.3:
+            digits = digits.upper()
+        if rng.random() < 0.2:
+            digits = b"0" * rng.randint(1, 4) + digits
+        stream = b"".join(sz + ex + CRLF + d + CRLF for sz, ex, d in chunks) + digits + _ext(rng) + CRLF + _payload(rng, have)
+        yield _case(_random_split(rng, stream), rng.choice([1, 1, 1, 0]), "hugesize")
+
+
+def _many_cases(rng, quick):
+    """counts far beyond what ordinary messages have, all within the documented BYTE limits: many chunks, many trailer
+    fields (total < 2^16 bytes), many extension parameters, long runs of empty deliveries"""
+    out = []
+    for n in ([101, 128, 600] if quick else [64, 100, 101, 128, 129, 256, 257, 600, 1025, 2500]):
+        # many trailer fields of a few bytes each
+        tl = [rng.choice([b"a: b", b"x-t%d: v" % i, b"t", b"k:"]) for i in range(n)]
+        stream = b"2\r\nhi\r\n0\r\n" + b"".join(t + CRLF for t in tl) + CRLF + b"EX"
+        assert len(stream) < 40000
+        out.append(_case([stream], 1, "many-trailers"))
+        out.append(_case(_random_split(rng, stream), 1, "many-trailers"))
+        cut = rng.randint(12, len(stream) - 5)
+        out.append(_case(_cut(stream, [cut, cut + 1]), 1, "many-trailers"))
+        out.append(_case(_random_split(rng, stream[:len(stream) - 4]), 1, "many-trailers-trunc"))
+    for n in ([100, 300, 1100] if quick else [100, 101, 255, 256, 257, 300, 1000, 1100, 3000]):
+        # many one/two-byte chunks
+        parts, body = [], []
+        for i in range(n):
+            d = _payload(rng, rng.choice([1, 1, 2]))
+            parts.append(_size_digits(rng, len(d)) + (b";i=%d" % i if i % 7 == 0 else b"") + CRLF + d + CRLF)
+        stream = b"".join(parts) + b"0\r\n\r\n"
+        out.append(_case([stream], 1, "many-chunks"))
+        out.append(_case(_random_split(rng, stream), rng.randint(0, 1), "many-chunks"))
+        out.append(_case(_random_split(rng, stream[:rng.randint(1, len(stream) - 1)]), 1, "many-chunks-trunc"))
+    for n in ([60, 200] if quick else [60, 100, 101, 200, 250]):
+        # many extension parameters (line stays below the 1023-byte bound)
+        ext = b"".join(b";p%d" % (i % 10) for i in range(n))
+        stream = b"3" + ext + CRLF + b"abc\r\n0" + ext + CRLF + CRLF
+        out.append(_case(_random_split(rng, stream), 1, "many-extparams"))
+    return out
+
+
 def corpus():
     c = []
     s = b"3\r\nabc\r\n5;x=y\r\n12345\r\nA\r\n0123456789\r\n0\r\nT: v\r\n\r\nEXTRA"
@@ -295,6 +482,29 @@ def corpus():
     c.append(_case([b"3;" + b"e" * 1022, b"e"], 1, "linelen-partial"))
     c.append(_case([b"3;" + b"e" * 1021 + b"\r", b"\n"], 1, "linelen-partial"))
     c.append(_case([b"3;" + b"e" * 1022 + b"\r", b"\n"], 1, "linelen-partial"))
+    # re-entrant noMoreData() from the callbacks (test_reentrantFinishedNoMoreData; the comment in
+    # _IdentityTransferDecoder.dataReceived): silent once everything has arrived, _DataLoss before
+    c.append(_case([b"0\r\n\r\n"], 1, "valid", probe=1))
+    c.append(_case([b"3\r\nabc\r\n0\r\nT: v\r\n\r", b"\nEX"], 1, "valid", probe=1))
+    c.append(_case([b"3\r\nab", b"c\r\n0\r\n"], 1, "trunc", probe=1))
+    c.append({"op": "identity", "n": 3, "d": [hx(b"ab"), hx(b"cde")], "end": 1, "why": "identity", "probe": 1})
+    c.append({"op": "identity", "n": 3, "d": [hx(b"abc")], "end": 0, "why": "identity", "probe": 1})
+    c.append({"op": "identity", "n": 0, "d": [hx(b"")], "end": 1, "why": "identity", "probe": 1})
+    # size fields that int(x, 16) would take but are not 1*HEXDIG; BWS before chunk-ext
+    for sz in (b"3 ", b" 3", b"3\t;x", b"3 ;x=y", b"+3", b"0x3", b"0_3", b"3\n", b"\x0c3"):
+        c.append(_case([sz + b"\r\nabc\r\n0\r\n\r\n"], 1, "sizedeco"))
+    c.append(_case([b"3\r\nabc\r\n0 ;x\r\n\r\n"], 1, "sizedeco"))
+    # a chunk announcing 2^31 / 2^64 bytes: its prefix is delivered, the end of the stream is data loss
+    c.append(_case([b"80000000\r\nabc"], 1, "hugesize"))
+    c.append(_case([b"1\r\nZ\r\n10000000000000000;x\r\n", b"abc"], 1, "hugesize"))
+    # 101 and 600 trailer fields, far below the 2^16-byte limit
+    c.append(_case([b"0\r\n" + b"a: b\r\n" * 101 + b"\r\n"], 1, "many-trailers"))
+    c.append(_case([b"1\r\nZ\r\n0\r\n" + b"a: b\r\n" * 600 + b"\r", b"\nEX"], 1, "many-trailers"))
+    c.append(_case([b'2;a="\x00"\r\nxy\r\n0\r\n\r\n'], 1, "extshape"))
+    c.append(_case([b'2;a="b"\r\nxy\r\n0;c="\x7f"\r\n\r\n'], 1, "extshape"))
+    for b in (b"3\r\nabc\r\nrest", b"0x3\r\nabc\r\n", b"+3\r\nabc\r\n", b" 3\r\nabc\r\n", b"3 \r\nabc\r\n", b"0_3\r\nabc\r\n",
+              b"-0\r\n\r\n", b"3\r\nabcd\r\n", b"3\r\nab", b"3", b"", b"0\r\n\r\n", b"3;x\r\nabc\r\n", b"A\r\n0123456789\r\n\r\n"):
+        c.append({"op": "fromchunk", "b": hx(b)})
     c.append({"op": "hexint", "b": hx(b"1F")})
     c.append({"op": "hexint", "b": hx(b"0x1F")})
     c.append({"op": "decint", "b": hx(b" \t12 ")})
@@ -317,20 +527,20 @@ def generate(rng, tier):
             r = rng.random()
             if r < 0.15:
                 d = d + [b""] * rng.randint(1, 2)
-                yield _case(d, 1, "valid-empty-after")
+                yield _probed(rng, _case(d, 1, "valid-empty-after"))
             elif r < 0.3:
                 d = d + [rng.choice([b"x", b"\r\n", b"0\r\n\r\n"])] + ([b"y"] if rng.random() < 0.3 else [])
-                yield _case(d, rng.randint(0, 1), "valid-data-after")
+                yield _probed(rng, _case(d, rng.randint(0, 1), "valid-data-after"))
             else:
-                yield _case(d, rng.randint(0, 1), "valid")
+                yield _probed(rng, _case(d, rng.randint(0, 1), "valid"), 0.4)
         # 2. truncations
         for _ in range(2):
             cut = rng.randint(0, max(0, len(enc) - 1))
-            yield _case(_random_split(rng, enc[:cut]), 1, "trunc")
+            yield _probed(rng, _case(_random_split(rng, enc[:cut]), 1, "trunc"))
         # 3. mutations
         for _ in range(3):
             m = _mutate(rng, stream)
-            yield _case(_random_split(rng, m), 1, "mut")
+            yield _probed(rng, _case(_random_split(rng, m), 1, "mut"), 0.15)
             if len(m) <= 40 and rng.random() < 0.1:
                 for p in range(len(m) + 1):
                     yield _case(_cut(m, [p]), 1, "mut-allsplits")
@@ -341,6 +551,15 @@ def generate(rng, tier):
         yield _case([b"1" + bytes([c]) + b"\r\n" + b"z" * 0x1a + b"\r\n0\r\n\r\n"], 1, "sizebyte")
         yield _case([b"2\r\nxy" + bytes([c]), b"\n0\r\n\r\n"], 1, "crlfbyte")
         yield _case([b"2\r\nxy\r" + bytes([c]) + b"0\r\n\r\n"], 1, "crlfbyte")
+    # 4b. grammar-directed malformations and boundary classes (see the helpers)
+    for c in _sizedeco_cases(rng, 350 if quick else 5000):
+        yield c
+    for c in _extshape_cases(rng, 300 if quick else 5000):
+        yield c
+    for c in _hugesize_cases(rng, 120 if quick else 1500):
+        yield _probed(rng, c, 0.15)
+    for c in _many_cases(rng, quick):
+        yield c
     # 5. limits
     for c in _line_limit_cases(rng):
         yield c
@@ -356,7 +575,10 @@ def generate(rng, tier):
         end = rng.choice([0, 1, 1, 2, 3])
         if end == 2 and n is None:
             end = 3       # a second noMoreData() with contentLength=None is outside the model (TypeError in the code): ASSUMES
-        yield {"op": "identity", "n": n, "d": [hx(x) for x in d], "end": end, "why": "identity"}
+        c = {"op": "identity", "n": n, "d": [hx(x) for x in d], "end": end, "why": "identity"}
+        if n is not None and rng.random() < 0.4:
+            c["probe"] = 1
+        yield c
     # 7. _hexint / _decint / toChunk
     for _ in range(400 if quick else 6000):
         b = bytes(rng.choice(rng.choice([HEXCH, HEXCH, b"xX+-_ \t\r\ngG\x00", bytes(range(256))]))
@@ -367,6 +589,24 @@ def generate(rng, tier):
         yield {"op": "decint", "b": hx(b)}
     for n in list(range(0, 40)) + [255, 256, 257, 4095, 4096, 65535, 65536]:
         yield {"op": "tochunk", "b": hx(_payload(rng, n))}
+    # 8. fromChunk: toChunk output + rest; decorated size prefixes; damaged / missing CRLFs; short data
+    for _ in range(400 if quick else 6000):
+        data = _payload(rng, rng.choice([0, 1, 2, 3, 9, 10, 15, 16, 17, 40, 255, 256]))
+        rest = rng.choice([b"", b"", b"rest", b"\r\n", b"0\r\n\r\n", _payload(rng, 4)])
+        digits = _size_digits(rng, len(data))
+        r = rng.random()
+        if r < 0.35:
+            b = b"".join(http_toChunk(data)) + rest if rng.random() < 0.5 else digits + CRLF + data + CRLF + rest
+        elif r < 0.7:
+            b = _decorate_size(rng, digits) + CRLF + data + CRLF + rest
+        elif r < 0.8:
+            b = digits + _ext(rng) + CRLF + data + CRLF + rest
+        elif r < 0.9:
+            b = _mutate(rng, digits + CRLF + data + CRLF + rest)
+        else:
+            whole = digits + CRLF + data + CRLF
+            b = whole[:rng.randint(0, len(whole))]
+        yield {"op": "fromchunk", "b": hx(b)}
 
 
 # ------------------------------------------------------------------------------------------------
@@ -378,10 +618,11 @@ def _dl(c):
 
 def model_line(c):
     op = c["op"]
+    p = "p" if c.get("probe") else ""
     if op == "chunked":
-        return f"chunked {c['end']} {_dl(c)}"
+        return f"chunked{p} {c['end']} {_dl(c)}"
     if op == "identity":
-        return f"identity {'none' if c['n'] is None else c['n']} {c['end']} {_dl(c)}"
+        return f"identity{p} {'none' if c['n'] is None else c['n']} {c['end']} {_dl(c)}"
     return f"{op} {c['b']}"
 
 
@@ -421,15 +662,70 @@ def _drive(dec, data, fin, c):
     return _render(data, fin, exc)
 
 
+def _probe(dec, log):
+    """noMoreData() called from inside a callback; only its outcome is recorded"""
+    try:
+        dec.noMoreData()
+        log.append("ok")
+    except _EXC as e:
+        log.append(type(e).__name__)
+
+
+def _run_chunked_probed(c):
+    data, fin, fprobe, dprobe = [], [], [], []
+
+    def on_data(b):
+        data.append(b)
+        _probe(dec, dprobe)
+
+    def on_finish(b):
+        fin.append(b)
+        _probe(dec, fprobe)
+
+    dec = http._ChunkedTransferDecoder(on_data, on_finish)
+    out = _drive(dec, data, fin, c)
+    return out + f" fprobe={';'.join(fprobe) if fprobe else 'none'} dprobe={'/'.join(sorted(set(dprobe))) if dprobe else 'none'}"
+
+
+def _run_identity_probed(c):
+    """the application calls noMoreData() from dataCallback as soon as it holds the Content-Length bytes, and again
+    from finishCallback"""
+    data, fin, probes = [], [], []
+    n = c["n"]
+
+    def on_data(b):
+        data.append(b)
+        if sum(len(x) for x in data) == n:
+            _probe(dec, probes)
+
+    def on_finish(b):
+        fin.append(b)
+        _probe(dec, probes)
+
+    dec = http._IdentityTransferDecoder(n, on_data, on_finish)
+    out = _drive(dec, data, fin, c)
+    return out + f" cprobe={';'.join(probes) if probes else 'none'}"
+
+
 def run_impl(c):
     op = c["op"]
     if op == "chunked":
+        if c.get("probe"):
+            return _run_chunked_probed(c)
         data, fin = [], []
         return _drive(http._ChunkedTransferDecoder(data.append, fin.append), data, fin, c)
     if op == "identity":
+        if c.get("probe"):
+            return _run_identity_probed(c)
         data, fin = [], []
         return _drive(http._IdentityTransferDecoder(c["n"], data.append, fin.append), data, fin, c)
     b = unhx(c["b"])
+    if op == "fromchunk":
+        try:
+            d, rest = http.fromChunk(b)
+        except ValueError:
+            return "!raised ValueError"
+        return f"data={hx(d)} rest={hx(rest)}"
     if op == "hexint":
         try:
             return str(_hexint(b))
@@ -467,7 +763,30 @@ def _expect_chunked(c):
     return ds, stream, ref, free
 
 
+def _split_probes(out):
+    """'<base> fprobe=.. dprobe=..' / '<base> cprobe=..' -> (base, {name: [outcomes]})"""
+    m = re.fullmatch(r"(data=\S+ fin=\S+ exc=\S+)((?: [a-z]probe=\S+)*)", out)
+    if not m:
+        return out, None
+    probes = {}
+    for kv in m.group(2).split():
+        k, v = kv.split("=")
+        probes[k] = [] if v == "none" else re.split(r"[;/]", v)
+    return m.group(1), probes
+
+
 def _oracle_chunked(c, out):
+    out, probes = _split_probes(out)
+    if c.get("probe"):
+        if probes is None or set(probes) != {"fprobe", "dprobe"}:
+            return {"key": "escaped-exception", "detail": out}
+        # The stream has not ended before the last chunk when finishCallback runs: a noMoreData() there is silent.
+        # Whenever dataCallback runs the last chunk has not been seen: a noMoreData() there reports data loss.
+        if any(x != "ok" for x in probes["fprobe"]):
+            return {"key": "reentrant-finish", "detail": f"noMoreData() called from finishCallback gave {probes['fprobe']} "
+                    f"(deliveries {[len(unhx(x)) for x in c['d']]})"}
+        if any(x != "_DataLoss" for x in probes["dprobe"]):
+            return {"key": "reentrant-data", "detail": f"noMoreData() called from dataCallback gave {probes['dprobe']}"}
     p = _parse_out(out)
     if p is None:
         return {"key": "escaped-exception", "detail": out}
@@ -531,6 +850,14 @@ def _oracle_chunked(c, out):
 
 
 def _oracle_identity(c, out):
+    out, probes = _split_probes(out)
+    if c.get("probe"):
+        if probes is None or set(probes) != {"cprobe"}:
+            return {"key": "escaped-exception", "detail": out}
+        # probes happen only once all Content-Length bytes have been handed over: nothing is missing, no data loss
+        if any(x != "ok" for x in probes["cprobe"]):
+            return {"key": "reentrant-identity", "detail": f"n={c['n']} deliveries={[len(unhx(x)) for x in c['d']]}: noMoreData() "
+                    f"called from the callbacks once the body was complete gave {probes['cprobe']}"}
     m = re.fullmatch(r"data=(\S+) fin=(\S+) exc=(\S+)", out)
     if not m:
         return {"key": "escaped-exception", "detail": out}
@@ -572,6 +899,27 @@ def _oracle_identity(c, out):
     return None
 
 
+def _oracle_fromchunk(b, out):
+    """one chunk `1*HEXDIG CRLF data CRLF` + rest -> (data, rest); anything else is refused (ValueError).  A size line
+    with a chunk extension is valid chunked coding that fromChunk documents it does not handle: refusing it or decoding
+    it correctly are both fine, decoding it wrongly is not."""
+    i = b.find(CRLF)
+    want = None
+    if i >= 0:
+        size, semi, ext = b[:i].partition(b";")
+        if re.fullmatch(rb"[0-9A-Fa-f]+", size, re.S) and all(x in EXTOK for x in ext):
+            n = int(size, 16)
+            rest = b[i + 2:]
+            if rest[n:n + 2] == CRLF:
+                want = f"data={hx(rest[:n])} rest={hx(rest[n + 2:])}"
+            if semi and out == "!raised ValueError":
+                return None
+    want = want or "!raised ValueError"
+    if out != want:
+        return {"key": "fromchunk", "detail": f"fromChunk({b!r:.60}) = {out:.80}, expected {want:.80}"}
+    return None
+
+
 def oracle(c, out):
     op = c["op"]
     if op == "chunked":
@@ -579,6 +927,8 @@ def oracle(c, out):
     if op == "identity":
         return _oracle_identity(c, out)
     b = unhx(c["b"])
+    if op == "fromchunk":
+        return _oracle_fromchunk(b, out)
     if op == "hexint":
         want = str(int(b, 16)) if re.fullmatch(rb"[0-9a-fA-F]+", b, re.S) else "!raised ValueError"
         return None if out == want else {"key": "hexint", "detail": f"_hexint({b!r}) = {out}, expected {want}"}
@@ -603,17 +953,18 @@ def tag(c, out):
     op = c["op"]
     if op == "chunked":
         ds, stream, ref, free = _expect_chunked(c)
-        p = _parse_out(out)
+        base, probes = _split_probes(out)
+        p = _parse_out(base)
         exc = p[2] if p else "?"
         n = len(ds)
         nb = "1" if n <= 1 else "2" if n == 2 else "few" if n <= 8 else "many"
         feats = ("x" if b";" in stream else "") + ("e" if ref["verdict"] == "ok" and ref["end"] < len(stream) else "") \
-            + ("z" if any(not d for d in ds) else "")
+            + ("z" if any(not d for d in ds) else "") + ("p" if c.get("probe") else "")
         return f"ch:{c.get('why', '')}:{ref['verdict']}:{ref.get('why', '')}:{exc}:{nb}:{feats}"
     if op == "identity":
-        m = re.search(r" exc=(\S+)$", out)
+        m = re.search(r" exc=(\S+)", out)
         ev = re.sub(r"@\d+", "@i", m.group(1)) if m else "?"
-        return f"id:{'none' if c['n'] is None else min(c['n'], 3)}:{ev}:{min(len(c['d']), 3)}:{c['end']}"
+        return f"id:{'none' if c['n'] is None else min(c['n'], 3)}:{ev}:{min(len(c['d']), 3)}:{c['end']}:{'p' if c.get('probe') else ''}"
     return f"{op}:{'raise' if out.startswith('!') else 'ok'}:{min(len(c['b']) // 2, 4)}"
 
 
